@@ -57,7 +57,7 @@ def cases(tier, seed):
         order = pat.canon_order(d, 0 if cfg.get('r') == 1 else 1)
         nosc = [k for k in order if k != 0]
         pats = [[k for k in order if popcount(k) == g] for g in range(1, d + 1)]
-        pats += [p for p in pat.RND(d, 6, rng, max_len=4, min_len=1) if 0 not in p]
+        pats += [p for p in pat.RND(d, 6 if tier == 'quick' else 40, rng, max_len=4, min_len=1) if 0 not in p]
         pats += [[k for k in order if popcount(k) in (1, 2)]] if d <= 3 else []
         for ka in pats:
             if not ka:
@@ -70,7 +70,7 @@ def cases(tier, seed):
             out.append(dict(kind='sqrt', cfg=cfg, ka=[0] + [k for k in order if popcount(k) == 2]))
         out.append(dict(kind='sqrt', cfg=cfg, ka=[0]))
         # powers and norms
-        for ka in pat.RND(d, 3, rng, max_len=3, min_len=1):
+        for ka in pat.RND(d, 3 if tier == 'quick' else 20, rng, max_len=3, min_len=1):
             out.append(dict(kind='pow', cfg=cfg, ka=list(ka)))
         for g in range(1, min(d, 2) + 1):
             out.append(dict(kind='norm', cfg=cfg, ka=[k for k in order if popcount(k) == g][:3]))
@@ -79,7 +79,7 @@ def cases(tier, seed):
             out.append(dict(kind='exp', cfg=cfg, ka=[k], fork=True))
             if rng.random() < 0.5:
                 out.append(dict(kind='exp-sympy', cfg=cfg, ka=[k]))
-        for _ in range(2):
+        for _ in range(2 if tier == 'quick' else 12):
             if len(nosc) >= 2:
                 out.append(dict(kind='exp', cfg=cfg, ka=rng.sample(nosc, 2), fork=True))
         if d >= 2:
